@@ -208,7 +208,10 @@ def _run_main(case, model, prios):
             r = model.systems.execute_systems()
             kinds.add("exec")
         elif kind == "exec_throw":
-            expect_raises("no-modelcompleteerror", ModelCompleteError, model.systems.execute_systems, throw_error=True)
+            if k % 2:
+                expect_raises("no-modelcompleteerror", ModelCompleteError, model.systems.execute_systems, True)       # the flag in its documented position
+            else:
+                expect_raises("no-modelcompleteerror", ModelCompleteError, model.systems.execute_systems, throw_error=True)
             kinds.add("exec_throw")
         elif kind == "complete":
             model.complete()
